@@ -10,12 +10,6 @@ Definition reach (wb : bool) (ls : list hlabel) : hstate := exec hl_step (h_init
 Lemma reach_inv wb ls : Inv (h_cache (reach wb ls)).
 Proof. destruct (HInv_exec wb ls) as [I _]. exact I. Qed.
 
-Lemma terms_pos_exec ls : forall h, HInv h -> terms_pos h -> Forall reports_term ls -> terms_pos (exec hl_step h ls).
-Proof.
-  induction ls as [|l r IH]; intros h I TP F; [exact TP|].
-  inversion F; subst. rewrite exec_next. apply IH; auto using HInv_next, terms_pos_next.
-Qed.
-
 Theorem c_no_overlap wb ls :
   Forall validP (cached (h_cache (reach wb ls))) /\ StronglySorted before (cached (h_cache (reach wb ls))).
 Proof. exact (no_overlap_pf wb ls). Qed.
@@ -23,26 +17,15 @@ Proof. exact (no_overlap_pf wb ls). Qed.
 Theorem c_epoch_step wb ls l h' id x x' :
   hl_step (reach wb ls) l = Some h' ->
   get_region (h_cache (reach wb ls)) id = Some x -> get_region (h_cache h') id = Some x' ->
-  r_ver x <= r_ver x' /\ r_confver x <= r_confver x' /\ (0 < r_term x' -> r_term x <= r_term x').
+  r_ver x <= r_ver x' /\ r_confver x <= r_confver x' /\ r_term x <= r_term x'.
 Proof. apply epoch_monotone_step_pf. apply HInv_exec. Qed.
 
-Theorem c_versions_chain wb ls1 ls2 id x x' :
+Theorem c_epochs_chain wb ls1 ls2 id x x' :
   always_served id (reach wb ls1) ls2 ->
   get_region (h_cache (reach wb ls1)) id = Some x ->
   get_region (h_cache (exec hl_step (reach wb ls1) ls2)) id = Some x' ->
-  r_ver x <= r_ver x' /\ r_confver x <= r_confver x'.
-Proof. apply versions_monotone_chain_pf. apply HInv_exec. Qed.
-
-Theorem c_term_chain wb ls1 ls2 id x x' :
-  Forall reports_term ls1 -> Forall reports_term ls2 ->
-  always_served id (reach wb ls1) ls2 ->
-  get_region (h_cache (reach wb ls1)) id = Some x ->
-  get_region (h_cache (exec hl_step (reach wb ls1) ls2)) id = Some x' ->
-  r_term x <= r_term x'.
-Proof.
-  intros F1 F2. apply term_monotone_chain_pf; [apply HInv_exec| |exact F2].
-  apply terms_pos_exec; [apply HInv_init|apply terms_pos_init|exact F1].
-Qed.
+  r_ver x <= r_ver x' /\ r_confver x <= r_confver x' /\ r_term x <= r_term x'.
+Proof. apply epochs_monotone_chain_pf. apply HInv_exec. Qed.
 
 Theorem c_precheck_is_stale wb ls r : valid_range r = true ->
   snd (precheck (h_cache (reach wb ls)) r) = stale_spec (cached (h_cache (reach wb ls))) r.
@@ -54,7 +37,7 @@ Theorem c_stale_first wb ls t r :
 Proof. apply stale_rejected_begin_pf. apply HInv_exec. Qed.
 
 Theorem c_stale_locked wb ls t r fl :
-  th_get (h_threads (reach wb ls)) t = Some (PLock r fl) -> f_cache fl = true ->
+  th_get (h_threads (reach wb ls)) t = Some (PLock r fl) ->
   stale_spec (cached (h_cache (reach wb ls))) r = true ->
   exists h', step (reach wb ls) t = (h', HErr) /\ h_cache h' = h_cache (reach wb ls) /\ h_store h' = h_store (reach wb ls).
 Proof. apply stale_rejected_step_pf. apply HInv_exec. Qed.
@@ -65,9 +48,9 @@ Theorem c_rejected_unchanged h t h' :
 Proof. split; [intros r; apply rejected_unchanged_begin_pf|apply rejected_unchanged_step_pf]. Qed.
 
 Theorem c_displaced_cache wb ls r x :
-  wf_region r = true -> In x (snd (set_region (h_cache (reach wb ls)) r)) ->
-  get_region (fst (set_region (h_cache (reach wb ls)) r)) (r_id x) = None /\ In x (cached (h_cache (reach wb ls))).
-Proof. apply displaced_gone_from_cache_pf. apply reach_inv. Qed.
+  wf_region r = true -> In x (snd (put_region (h_cache (reach wb ls)) r)) ->
+  get_region (fst (put_region (h_cache (reach wb ls)) r)) (r_id x) = None /\ In x (cached (h_cache (reach wb ls))).
+Proof. apply displaced_gone_from_cache_put_pf. apply reach_inv. Qed.
 
 Theorem c_storage_seq wb ops : Forall seq_op ops ->
   forall id, held (h_store (seq_ops wb ops)) id -> get_region (h_cache (seq_ops wb ops)) id <> None.
